@@ -42,6 +42,7 @@ type InstResult struct {
 	C18Writes map[string]string // global state written -> lock context
 	C18Notes  map[string]int
 	C18Events int
+	KFUndecided bool
 }
 
 // runInstance explores all paths of one instance.
@@ -127,6 +128,7 @@ func runInstance(ld *Loaded, sol *Solver, inst Instance, opt runOpts) (res InstR
 	res.Intr = ex.intrHit
 	res.UnknownBr = h.unknownBr
 	res.Observe = h.observeLog
+	res.KFUndecided = h.kfUndecided
 	for l := range h.c18reads {
 		res.C18Reads = append(res.C18Reads, l)
 	}
